@@ -9,8 +9,8 @@ use crate::util::{guard, par_map, Kv};
 
 pub fn meta(ctx: &Ctx) -> Meta {
     Meta {
-        rule: format!("networks of depth 2..{} over count-preserving layers {{dense 4->4 (linear, ReLU), conv 1x1 / 3x3 p1, deconv 3x3 p1 on 1x2x2, feedback[dense 4]x2}} from a flat and a spatial input (flat<->spatial neighbours in both directions) x EVERY index pair a <= b x all 5 accumulations, exact small-integer data: predict vs the reference interpreter; connections spanning 5..7 layers of an 8-layer network; EVERY ordered pair of connect calls on the depth-3/4 networks: pairwise distinct sources and targets must be accepted, a second connection onto a used target (or from a used source) must be rejected or both must stay visible in predict; additive accumulation: Network::backward vs the dual-number derivative of the reference function for every single connection and every accepted pair. Non-trivial = reference output has >= 2 distinct non-zero entries", if ctx.tier.thorough() { 4 } else { 3 }),
-        bound: "depth <= 4, element count 4, at most two connections".into(),
+        rule: format!("networks of depth 2..{} over count-preserving layers {{dense 4->4 (linear, ReLU), conv 1x1 / 3x3 p1, deconv 3x3 p1 on 1x2x2, feedback[dense 4]x2}} from a flat and a spatial input (flat<->spatial neighbours in both directions) x EVERY index pair a <= b x all 5 accumulations, exact small-integer data: predict vs the reference interpreter; connections spanning 5..7 layers of an 8-layer network; EVERY ordered pair of connect calls on the depth-3/4 networks: pairwise distinct sources and targets must be accepted, a second connection onto a used target (or from a used source) must be rejected or both must stay visible in predict; THREE connect calls with pairwise distinct sources and targets on a 5-layer network (quick: every ascending triple; thorough: every ordered triple) under add and mean: accepted, all visible; additive accumulation: Network::backward vs the dual-number derivative of the reference function for every single connection, every accepted pair and every triple. Non-trivial = reference output has >= 2 distinct non-zero entries", if ctx.tier.thorough() { 4 } else { 3 }),
+        bound: "depth <= 4 (5 for triples, 8 for long spans), element count 4, at most three connections".into(),
         exhaustive: true,
         assumptions: vec![
             "when the source layer is itself a target, its ordinary or its combined input are both accepted as 'the input that was fed to layer a'".into(),
@@ -132,6 +132,30 @@ pub fn check(seed: u64, case: &Kv, rep: &mut Report) {
                 backward_case(&net, seed, case, rep);
             }
         }
+        "triple" => {
+            // three connect calls with pairwise distinct sources and targets, in call order: all accepted, all visible
+            let net = Net::parse(case.get("net"));
+            rep.states += 1;
+            rep.evaluations += 1;
+            rep.transitions += 3;
+            let shapes = ref_shapes(&net).unwrap();
+            let key = net.name();
+            let params = structural_params(&net, &shapes, seed, &key);
+            let x = structural_input(net.input.count(), if net.skipacc == Acc::Mean { 6.0 } else { 1.0 }, seed, &key);
+            match predict_vs_ref(&net, &params, &x, 2e-6) {
+                Ok(ok) => {
+                    if ok.nontrivial {
+                        rep.nontrivial += 1;
+                    }
+                    if net.skipacc == Acc::Add {
+                        backward_case(&net, seed, case, rep);
+                    }
+                }
+                Err(Mismatch::Rejected(e)) => rep.violate("C16 connect rejects pairwise distinct connections (three)", format!("{}: {}", net.name(), crate::util::first_line(&e)), case),
+                Err(Mismatch::Value(e)) => rep.violate(format!("C16 three connections: combined input wrong [{}]", net.skipacc.name()), format!("{}: {}", net.name(), e), case),
+                Err(Mismatch::Panics(e)) | Err(Mismatch::Shape(e)) => rep.violate(format!("C16 three connections: forward fails [{}]", net.skipacc.name()), format!("{}: {}", net.name(), crate::util::first_line(&e)), case),
+            }
+        }
         _ => {
             // pair of connect calls, in call order
             let net = Net::parse(case.get("net"));
@@ -234,6 +258,29 @@ pub fn cases(ctx: &Ctx) -> Vec<Kv> {
                     m.connects = vec![c1, c2];
                     m.skipacc = Acc::Add;
                     out.push(Kv::new().put("kind", "pair").put("net", m.name()));
+                }
+            }
+        }
+    }
+    // three connections with pairwise distinct sources and targets on a 5-layer network: every ordered triple
+    // (thorough), every triple in ascending order (quick)
+    {
+        let d = |act: Act, bias: bool| L::Dense { n: 4, act, bias, drop: None };
+        let five = Net::new(Dims::Flat(4), vec![d(Act::Linear, true), d(Act::Relu, false), d(Act::Linear, true), d(Act::Relu, true), d(Act::Linear, false)]);
+        let pairs: Vec<(usize, usize)> = (0..5usize).flat_map(|b| (0..=b).map(move |a| (a, b))).collect();
+        for (i1, &c1) in pairs.iter().enumerate() {
+            for (i2, &c2) in pairs.iter().enumerate() {
+                for (i3, &c3) in pairs.iter().enumerate() {
+                    let distinct = c1.0 != c2.0 && c1.0 != c3.0 && c2.0 != c3.0 && c1.1 != c2.1 && c1.1 != c3.1 && c2.1 != c3.1;
+                    if !distinct || (!ctx.tier.thorough() && !(i1 < i2 && i2 < i3)) {
+                        continue;
+                    }
+                    for acc in [Acc::Add, Acc::Mean] {
+                        let mut m = five.clone();
+                        m.connects = vec![c1, c2, c3];
+                        m.skipacc = acc;
+                        out.push(Kv::new().put("kind", "triple").put("net", m.name()));
+                    }
                 }
             }
         }
